@@ -97,3 +97,25 @@ Fixpoint ktrace (s : kstate) (ops : list kop) : list (list Z) :=
   | [] => []
   | o :: r => let s' := kstep s o in obs (match o with KStart => 1 | _ => 2 end) s' :: ktrace s' r
   end.
+
+(* ------------------------------------------------------------------------------------------------
+   Session.add_or_renew_pool (run_add_or_renew_pool) racing with keyspace switches.  Keyspaces: 0 = None, 1.. = names.
+   The new pool reads session.keyspace when it connects; under the session lock it is registered only when its keyspace
+   equals the session's, otherwise (`while`) the lock is released for a catch-up USE round trip -- during which further
+   switches (which do not see the unregistered pool) may land -- and the test is repeated.
+   s0: switches landing before the read; s1: after the read, before the lock; rounds: per catch-up round trip. *)
+Fixpoint catchup (pool sess n : Z) (rounds : list (list Z)) : Z * Z * Z :=
+  if pool =? sess then (pool, sess, n) else
+  match rounds with
+  | [] => (sess, sess, n + 1)
+  | r :: rest => catchup sess (last r sess) (n + 1) rest
+  end.
+
+Definition create_pool (ks0 : Z) (s0 s1 : list Z) (rounds : list (list Z)) : Z * Z * Z :=
+  let r := last s0 ks0 in
+  let sess1 := if r =? 0 then r else last s1 r in      (* no blocking USE (hence no window) when the keyspace read is None *)
+  catchup r sess1 0 rounds.
+
+(* [registered; session keyspace; new pool._keyspace; its connection's keyspace; catch-up round trips] *)
+Definition create_obs (ks0 : Z) (s0 s1 : list Z) (rounds : list (list Z)) : list Z :=
+  let '(p, s, n) := create_pool ks0 s0 s1 rounds in [1; s; p; p; n].
